@@ -137,18 +137,33 @@ namespace AIToolbox {
         // the degenerate LPs our users build (seen with coefficients ~2^20). We
         // give it a generous iteration budget; if it is exhausted we solve again
         // with the first-index (Bland-type) rule, which cannot cycle.
+        //
+        // We also take the second attempt when lp_solve's own final check
+        // rejects the point it has reached (ACCURACYERROR), when it gives up
+        // numerically (NUMFAILURE) and when it reports UNBOUNDED: all three
+        // have been seen on small well-posed LPs that do have an optimum, and
+        // all were caused by lp_solve's default scaling. So the second attempt
+        // also runs on the unscaled model. Note that the model must be
+        // unscaled explicitly first: changing the scaling mode alone makes
+        // lp_solve scale the already scaled data, and it then returns wrong
+        // optima. As before, the second answer is only used if lp_solve
+        // itself reports it as optimal.
         long long budget = 1000 + 50ll * (get_Nrows(lp) + get_Ncolumns(lp));
         put_abortfunc(lp, [](lprec * l, void * b) -> int {
             return get_total_iter(l) > *static_cast<long long *>(b);
         }, &budget);
         auto result = ::solve(lp);
         put_abortfunc(lp, nullptr, nullptr);
-        if (result == USERABORT) {
+        if (result == USERABORT || result == ACCURACYERROR || result == NUMFAILURE || result == UNBOUNDED) {
             const int pricing = get_pivoting(lp);
+            const int scaling = get_scaling(lp);
             set_pivoting(lp, PRICER_FIRSTINDEX);
+            unscale(lp);
+            set_scaling(lp, SCALE_NONE);
             default_basis(lp);
             result = ::solve(lp);
             set_pivoting(lp, pricing);
+            set_scaling(lp, scaling);
         }
 
         REAL * vp;
